@@ -433,7 +433,7 @@ func (e *env) ingest(hist gen.History) bool {
 }
 
 func body(r *ev.Run) {
-	r.Rule("stores = seeded random histories (forks, stale branches, orphans, reorganisations) plus long chains (300 / 2100 quick, + 5000 thorough) with stale branches forking exactly at the locator heights and orphans. Random stores are questioned in up to 4 stages while they grow, earlier questions being asked again after later ingestion (incl. reorganisations). Per store: LatestHeaderLocator checked (starts at tip, only longest-chain hashes, strictly descending, single steps then doubling, ends at genesis; also after every extension of a growing chain for tips 0..40), and seeded getheaders queries: locators mixing longest/stale/orphan/unknown/genesis hashes in any order or the service's own locator, stops in {zero, ahead, behind, equal to start, genesis, stale/orphan, unknown}; both LocateHeadersGetHeaders and LocateHeaders compared header-by-header with the model answer. plus (d) wire level: the real legacy server, synced from a scripted node, is asked getheaders over TCP by that node (locators of known/unknown hashes, stops ahead / at-or-below start / unknown, chains beyond 2000) and its headers replies are compared with the honest chain. plus (e) stores whose reorganisations are interrupted by a failing relabel statement: until the redelivery the locator and the answer from genesis must still be one hash-linked chain of stored headers, after it they are compared with the model again. plus (g) stores filled by the start-up import of a prepared file (every second one after a first start whose import was refused for a damaged row), then extended and given two successively heavier competitors at the tip height, questioned after each step and after a restart. plus (f) stores configured for testnet / regtest / simnet (their own genesis blocks), incl. stop = that network's genesis. evaluations = getheaders queries; distinct = (locator class set, stop class) cells + locator lengths; non-trivial = all.")
+	r.Rule("stores = seeded random histories (forks, stale branches, orphans, reorganisations) plus long chains (300 / 2100 quick, + 5000 thorough) with stale branches forking exactly at the locator heights and orphans. Random stores are questioned in up to 4 stages while they grow, earlier questions being asked again after later ingestion (incl. reorganisations). Per store: LatestHeaderLocator checked (starts at tip, only longest-chain hashes, strictly descending, single steps then doubling, ends at genesis; also after every extension of a growing chain for tips 0..40), and seeded getheaders queries: locators mixing longest/stale/orphan/unknown/genesis hashes in any order or the service's own locator, stops in {zero, ahead, behind, equal to start, genesis, stale/orphan, unknown}; both LocateHeadersGetHeaders and LocateHeaders compared header-by-header with the model answer. plus (d) wire level: the real legacy server, synced from a scripted node, is asked getheaders over TCP by that node (locators of known/unknown hashes, stops ahead / at-or-below start / unknown, chains beyond 2000) and its headers replies are compared with the honest chain. plus (e) stores whose reorganisations are interrupted by a failing relabel statement: until the redelivery the locator and the answer from genesis must still be one hash-linked chain of stored headers, after it they are compared with the model again. plus (g) stores filled by the start-up import of a prepared file (every second one after a first start whose import was refused for a damaged row), then extended and given two successively heavier competitors at the tip height, questioned after each step and after a restart. plus (h) stores after a reorganisation over 501 heights (thorough: 499..2001). plus (f) stores configured for testnet / regtest / simnet (their own genesis blocks), incl. stop = that network's genesis. evaluations = getheaders queries; distinct = (locator class set, stop class) cells + locator lengths; non-trivial = all.")
 	r.Assume("the number of single steps before doubling is not fixed by the statement: any count is accepted, the 10-step reference is only recorded", "reference model transcribes the statement", "SQLite only")
 	r.Require("getheaders_capped_at_2000", 1)
 	r.Require("getheaders_stop_ahead", 50)
@@ -465,6 +465,33 @@ func body(r *ev.Run) {
 			e.locator()
 		}
 	})
+	// (h) stores after a reorganisation over 500+ heights (the sizes at which relabelling statements get batched)
+	deeps := []int{501}
+	if r.Thorough() {
+		deeps = []int{499, 500, 501, 1000, 1001, 2001}
+	}
+	for _, d := range deeps {
+		caseID := fmt.Sprintf("deep/%d", d)
+		r.Do(caseID, func() {
+			_ = st.Reset()
+			rng := r.Rand(caseID)
+			e := &env{r: r, st: st, m: mb.NewModel(), caseID: caseID, desc: map[string]any{"store": fmt.Sprintf("after a reorganisation over %d heights", d)}}
+			if !e.ingest(gen.DeepReorg(rng, rig.Genesis(), 2+rng.Intn(5), d)) {
+				return
+			}
+			e.locator()
+			path := e.m.LongestPath()
+			for _, loc := range [][]refmodel.Hash{{e.m.Genesis.Hash}, {path[len(path)/2].Hash}, {path[1].Hash}} {
+				e.getHeaders(query{loc: loc, stop: refmodel.Hash{}, locClass: "L", stopClass: "zero"})
+			}
+			for k := 0; k < 80 && !e.failed; k++ {
+				e.getHeaders(e.genQuery(rng))
+			}
+			if !e.failed {
+				r.Count("stores_after_a_deep_reorganisation_questioned", 1)
+			}
+		})
+	}
 	// (b) long chains
 	longs := []int{300, 2100}
 	if r.Thorough() {
